@@ -14,9 +14,12 @@ ASSUMPTIONS = ["scipy kernels are functions of their arguments (uninterpreted; c
                "np.allclose follows numpy's definition; in the longest histories of each tier it answers False (compared arrays assumed not within tolerance)", "scipy.linalg.solve_triangular satisfies its documented contract"]
 OUTSIDE = ["histories longer than the bound", "n > 3", "direct writes to private attributes"]
 OPS = ["driver", "prms", "compute", "read_sf", "read_pdf"]
+VARIANTS = "one lifetime object shared by two stocks; multi-point rule / inflow_at=start on the lifetime model; consecutive array parameters; models built without parameters; np.allclose by numpy's definition except in the longest histories; dtype shadow"
 BOUNDS = {"quick": dict(n=3, history="every sequence over {set driver, set_prms, compute, read sf, read pdf} of length <= 4 that ends in compute",
                         classes="idsm, sdsm manual, sdsm lapack x 5 lifetime classes", system_loop="2 and 3 iterations"),
           "thorough": dict(n=3, history="length <= 5", classes="as quick", system_loop="2 to 4 iterations")}
+for _t in BOUNDS.values():
+    _t["variants_beyond_the_base_enumeration"] = VARIANTS
 # dtype shadow: per-cohort parameter arrays first in an integer dtype, then replaced by non-whole ones (differential concrete run)
 DTYPE_SHADOW = lambda cfg: "always" if (cfg["h"] == "history" and cfg.get("first") in ("array", "arrays") and "prms" in cfg["seq"]) else False
 OPTS = {"quick": dict(shadow_every=40, timeout_ms=20000, max_paths=200), "thorough": dict(shadow_every=200, timeout_ms=60000, max_paths=200)}
